@@ -1095,8 +1095,8 @@ class Container:
             total_mass = sum(Unit.convert_from(substance, amount,
                                                'U' if substance.is_enzyme() else config.moles_storage_unit, 'g')
                              for substance, amount in solvent.contents.items())
-            total_moles = Unit.convert_from_storage(sum(amount for substance, amount in solvent.contents.items()
-                                                        if not substance.is_enzyme()), 'mol')
+            total_moles = sum(Unit.convert_from(substance, amount, config.moles_storage_unit, 'mol')
+                              for substance, amount in solvent.contents.items() if not substance.is_enzyme())
             total_volume = solvent.get_volume('mL')
             if total_moles == 0 or total_volume == 0:
                 raise ValueError("Solvent must contain a non-zero amount of substance.")
